@@ -2,6 +2,7 @@
 #include "interp.h"
 #include <algorithm>
 #include <cmath>
+#include <array>
 
 using namespace MEDDLY;
 
@@ -57,6 +58,13 @@ bool Interp::produce(int dst, int f, dd_edge* e, const Table& T, const char* wha
     for (size_t i = 1; i < T.size(); i++) if (!exactVal(T[i], T[0])) { constant = false; break; }
     if (!constant) R.labels.add("nonconstant_result");
     W.setSlot(dst, f, e, T2);
+    if (C.fingerprint) {
+        std::string cf = canonicalForm(W, f, *e);
+        uint64_t h = 1469598103934665603ULL;
+        for (unsigned char c : cf) { h ^= c; h *= 1099511628211ULL; }
+        R.fingerprint.push_back(h);
+        R.fingerprint.push_back(uint64_t(e->getNodeCount()));
+    }
     return true;
 }
 
@@ -92,14 +100,16 @@ void Interp::noteForestLabels()
         auto& sg = sigs[size_t(f)];
         const node_handle last = F->getLastNode();
         for (auto it = sg.begin(); it != sg.end();) {
-            if (it->first > last || !F->isActiveNode(node_handle(it->first))) { R.labels.add("node_death"); it = sg.erase(it); }
-            else ++it;
+            if (it->first > last || !F->isActiveNode(node_handle(it->first))) { R.labels.add("node_death"); it->second = 0; }
+            ++it;
         }
         for (node_handle p = 1; p <= last; p++) {
             if (!F->isActiveNode(p)) continue;
             uint64_t h = (uint64_t(F->hashNode(p)) << 8) ^ uint64_t(uint32_t(F->getNodeLevel(p)));
             auto it = sg.find(p);
+            if (h == 0) h = 1;
             if (it == sg.end()) sg[p] = h;
+            else if (it->second == 0) { R.labels.add("handle_reuse"); it->second = h; }      // died earlier, live again
             else if (it->second != h) { R.labels.add("handle_reuse"); R.labels.add("node_death"); it->second = h; }
         }
     }
@@ -510,7 +520,7 @@ bool Interp::doBinary(const Step& s)
     if (W.fs[fa].dom != W.fs[fc].dom || W.fs[fb].dom != W.fs[fc].dom) { skip("bin-domain"); return true; }
     ModelRes M = modelBinary(W, op, fa, W.slots[size_t(a)].T, fb, W.slots[size_t(b)].T, fc, strictErrors);
     if (!M.defined) { skip(M.skipwhy); return true; }
-    if (!M.mustThrow.empty() && P.property != "C16" && P.property != "C05") { skip("error-case"); return true; }
+    if ((!M.mustThrow.empty() || !M.mayThrow.empty()) && P.property != "C16" && P.property != "C05") { skip("error-case"); return true; }
     binary_factory* BF = binaryFactory(op);
     if (!BF) { skip("bin-unknown"); return true; }
     binary_operation* bop = nullptr;
@@ -777,6 +787,10 @@ void Interp::run()
             }
         }
     }
+    if (getenv("MVH_DUMP")) {
+        for (size_t sl = 0; sl < W.slots.size(); sl++) if (liveSlot(int(sl)))
+            printf("SLOT %zu forest %d\n%s", sl, W.slots[sl].f, canonicalForm(W, W.slots[sl].f, *W.slots[sl].e).c_str());
+    }
     // classification labels from the world
     for (size_t f = 0; f < W.fs.size(); f++) {
         if (!W.F[f]) continue;
@@ -794,6 +808,47 @@ void Interp::run()
         R.labels.add("K" + std::to_string(D.K()));
     }
     W.stop();
+}
+
+// C12: the same program under several storage x memory-manager x deletion combinations
+static std::vector<std::array<int, 3>> policyCombos(int tier)
+{
+    std::vector<std::array<int, 3>> v;
+    if (tier) {
+        for (int s = 1; s <= 3; s++) for (int m = 0; m < 4; m++) for (int d = 0; d < 3; d++) v.push_back({s, m, d});
+    } else {
+        // covering sample: every value of every factor with every value of the others at least once
+        static const int cs[12][3] = {{3,1,0},{1,0,0},{2,2,1},{3,3,2},{1,1,1},{2,0,2},{3,2,0},{1,3,1},{2,1,2},{1,2,2},{2,3,0},{3,0,1}};
+        for (auto& c : cs) v.push_back({c[0], c[1], c[2]});
+    }
+    return v;
+}
+
+RunResult runCase(const Program& P, int tier)
+{
+    Checks C = checksFor(P.property);
+    if (P.property != "C12") return runProgram(P, C);
+    C.fingerprint = true;
+    RunResult first;
+    bool haveFirst = false;
+    std::string firstName;
+    for (auto& combo : policyCombos(tier)) {
+        Program Q = P;
+        for (auto& f : Q.forests) { f.stor = combo[0]; f.mm = combo[1]; f.del = "OPN"[combo[2]]; }
+        RunResult r = runProgram(Q, C);
+        std::string name = "stor=" + std::to_string(combo[0]) + " mm=" + std::to_string(combo[1]) + " del=" + std::string(1, "OPN"[combo[2]]);
+        if (!r.ok) { r.fail.msg = "[" + name + "] " + r.fail.msg; return r; }
+        if (!haveFirst) { first = r; haveFirst = true; firstName = name; continue; }
+        if (r.fingerprint != first.fingerprint) {
+            r.ok = false;
+            r.fail = {"C12.differential", "canonical forms / node counts of the produced edges differ between [" + firstName + "] and [" + name + "]"};
+            return r;
+        }
+        for (auto& kv : r.labels.c) if (kv.first == "both_storage_forms" || kv.first == "node_death" || kv.first == "handle_reuse") first.labels.add(kv.first, kv.second);
+        first.labels.add("policy_variants");
+    }
+    first.nontrivial = first.ok && nontrivialRule(P.property, first.labels);
+    return first;
 }
 
 RunResult runProgram(const Program& P, const Checks& C)
